@@ -267,19 +267,8 @@ func IsAscendingLoop(info *types.Info, s ast.Stmt) bool {
 		}
 		return true
 	case *ast.ForStmt:
-		inc, ok := t.Post.(*ast.IncDecStmt)
-		if !ok || inc.Tok != token.INC {
-			return false
-		}
-		init, ok := t.Init.(*ast.AssignStmt)
-		if !ok || len(init.Rhs) != 1 {
-			return false
-		}
-		if v, ok := ConstInt(info, init.Rhs[0]); !ok || v != 0 {
-			return false
-		}
-		c, ok := t.Cond.(*ast.BinaryExpr)
-		return ok && (c.Op == token.LSS || c.Op == token.LEQ)
+		l, ok := ElemLoopOf(info, t)
+		return ok && !l.Desc
 	}
 	return false
 }
@@ -295,31 +284,8 @@ func IsDescendingLoop(info *types.Info, s ast.Stmt) bool {
 		}
 		return false
 	case *ast.ForStmt:
-		dec, ok := t.Post.(*ast.IncDecStmt)
-		if !ok || dec.Tok != token.DEC {
-			return false
-		}
-		c, ok := t.Cond.(*ast.BinaryExpr)
-		if !ok || (c.Op != token.GEQ && c.Op != token.GTR) {
-			return false
-		}
-		init, ok := t.Init.(*ast.AssignStmt)
-		if !ok || len(init.Rhs) != 1 {
-			return false
-		}
-		// len(x) - 1
-		b, ok := ast.Unparen(init.Rhs[0]).(*ast.BinaryExpr)
-		if !ok || b.Op != token.SUB {
-			return false
-		}
-		call, ok := ast.Unparen(b.X).(*ast.CallExpr)
-		if !ok {
-			return false
-		}
-		if id, ok := call.Fun.(*ast.Ident); !ok || id.Name != "len" {
-			return false
-		}
-		return true
+		l, ok := ElemLoopOf(info, t)
+		return ok && l.Desc
 	}
 	return false
 }
